@@ -1,0 +1,23 @@
+//go:build verif
+
+// Package verifhook provides named yield points used by the external
+// verification harness. With the "verif" build tag, Point calls the installed
+// handler (if any); call sites never hold a mutex.
+package verifhook
+
+import "sync/atomic"
+
+var handler atomic.Pointer[func(string)]
+
+// Point invokes the installed handler, if any, with the name of the point.
+func Point(name string) {
+	if h := handler.Load(); h != nil {
+		(*h)(name)
+	}
+}
+
+// SetHandler installs h as the handler for all points.
+func SetHandler(h func(string)) { handler.Store(&h) }
+
+// ClearHandler removes the handler.
+func ClearHandler() { handler.Store(nil) }
